@@ -12,26 +12,40 @@
   and over *any* carrier (IEEE doubles included): they are structural facts about which oracle
   answer ends up in which output.
 
-  `fuelOut = false` says that no `backtrack_qub` loop of the *model* ran out of its fuel
-  (`Params.qubFuel`); the C++ loop has no fuel and ends because `L` doubles up to `L_max`
-  (`Props/C19_Pantr.backtrack_passes_bounded`).  Replay asserts the flag is never set.
+  Fuel.  pantr.tpp has one inner loop, `backtrack_qub` (no retry loop inside an iteration, the main
+  loop never `continue`s).  The model gives it the explicit fuel `Params.qubFuel`; `fuelOut = false`
+  says that no `backtrack_qub` of the *model* ran out of it.  The main loop's own fuel `max_iter + 1`
+  suffices unconditionally (`mainLoop_exit_at_head`: every return is a head exit; used by
+  `pantr_wrote_iff`, which carries no fuel hypothesis).
+  * Over an ordered field `fuelOut = false` is PROVED for every stop schedule from the parameter
+    bundle `FuelOK pr N` (`0 < L_min`, `0 < L_max`, `L_max ≤ L_init·2ᴺ`, `N < qubFuel`;
+    `Proofs/PantrFuel.lean: pantr_fuel_suffices`): the theorems with the plain names take `FuelOK`.
+  * The `…_fuel` forms take `fuelOut = false` as a hypothesis instead and hold over any carrier, IEEE
+    doubles included; the replay asserts `fuelOut = false` on every recorded run (the driver prints
+    `FUEL-EXHAUSTED` otherwise; it runs with `qubFuel = 4096`, and the worst parameters the check
+    draws, `L_min = 1e-5`, `L_max = 1e20`, need `N = 84`: see the example at the end).
 -/
 import Alpaqa.Proofs.PantrInv
+import Alpaqa.Proofs.PantrFuel
 import Alpaqa.Proofs.PantrExample
+import Alpaqa.Proofs.PantrExampleQ
 
 namespace Alpaqa.Props.C03_Pantr
 open Alpaqa Alpaqa.Pantr Alpaqa.Gen
 set_option linter.unusedSectionVars false
 
+section structural
 variable {α D : Type} [Add α] [Sub α] [Mul α] [Div α] [Neg α] [LT α] [LE α] [DecidableLT α]
   [DecidableLE α] [BEq α] [RealLike α] [NatCast α] [OfScientific α]
   [OfNat α 0] [OfNat α 1] [OfNat α 2] [OfNat α 100]
 
-/-- **Exit contract of `PANTRSolver::operator()`.**  Whenever the outputs are overwritten:
+/-- Any carrier, IEEE doubles included; the replay asserts `fuelOut = false` on every recorded run.
+
+    **Exit contract of `PANTRSolver::operator()`.**  Whenever the outputs are overwritten:
     `x_out` is the `x̂` of a proximal-gradient step (hence in `C` for any prox that maps into `C`),
     `y_out` is the ψ-oracle's `ŷ` *at that very `x_out`*, and `err_z = (y_out − y_in)/Σ`.
     Otherwise `x`, `y`, `err_z` are the caller's values, untouched. -/
-theorem pantr_exit_contract (co : Consts α) (P : Problem α) (dir : Direction D α) (d0 : D)
+theorem pantr_exit_contract_fuel (co : Consts α) (P : Problem α) (dir : Direction D α) (d0 : D)
     (pr : Params α) (stop : Nat → Bool) (oot : Bool) (x0 y Sig errz0 gV : Vec α)
     (hfuel : (run co P dir d0 pr stop oot x0 y Sig errz0 gV).fuelOut = false) :
     ExitOK P x0 y Sig errz0 (run co P dir d0 pr stop oot x0 y Sig errz0 gV) := by
@@ -67,21 +81,56 @@ theorem pantr_wrote_iff (co : Consts α) (P : Problem α) (dir : Direction D α)
       (headStep P pr stop oot s').2.2 x0 y Sig errz0
     rw [hf.1, hf.2.1, hf.2.2.2.2.1]; simp
 
-/-- Feasibility: if the problem's prox step maps into `C` (proved for the shipped box / box+ℓ1 /
+/-- The same in "iff" form, covering every status: the outputs are left untouched exactly on the early
+    return (non-finite Lipschitz estimate: no iterate exists, status `NotFinite`) or when the status is
+    neither `Converged` nor `Interrupted` (i.e. `MaxIter`, `MaxTime`, `NotFinite`; `NoProgress`, `Busy`,
+    `Exception` are never returned by PANTR, `Props/C06_Pantr`) and `always_overwrite_results` is off.
+    No fuel hypothesis: the main loop's fuel `max_iter + 1` suffices unconditionally. -/
+theorem pantr_not_wrote_iff (co : Consts α) (P : Problem α) (dir : Direction D α) (d0 : D)
+    (pr : Params α) (stop : Nat → Bool) (oot : Bool) (x0 y Sig errz0 gV : Vec α) :
+    (run co P dir d0 pr stop oot x0 y Sig errz0 gV).wrote = false ↔
+      ((run co P dir d0 pr stop oot x0 y Sig errz0 gV).final = none ∨
+       ((run co P dir d0 pr stop oot x0 y Sig errz0 gV).stats.status ≠ .Converged ∧
+        (run co P dir d0 pr stop oot x0 y Sig errz0 gV).stats.status ≠ .Interrupted ∧
+        pr.alwaysOverwrite = false)) := by
+  rw [pantr_wrote_iff]
+  cases (run co P dir d0 pr stop oot x0 y Sig errz0 gV).final <;>
+    cases (run co P dir d0 pr stop oot x0 y Sig errz0 gV).stats.status <;>
+    cases pr.alwaysOverwrite <;> simp
+
+/-- … and the positive form: overwritten iff an iterate exists and the status is `Converged` or
+    `Interrupted` or `always_overwrite_results` is on. -/
+theorem pantr_wrote_true_iff (co : Consts α) (P : Problem α) (dir : Direction D α) (d0 : D)
+    (pr : Params α) (stop : Nat → Bool) (oot : Bool) (x0 y Sig errz0 gV : Vec α) :
+    (run co P dir d0 pr stop oot x0 y Sig errz0 gV).wrote = true ↔
+      ((run co P dir d0 pr stop oot x0 y Sig errz0 gV).final ≠ none ∧
+       ((run co P dir d0 pr stop oot x0 y Sig errz0 gV).stats.status = .Converged ∨
+        (run co P dir d0 pr stop oot x0 y Sig errz0 gV).stats.status = .Interrupted ∨
+        pr.alwaysOverwrite = true)) := by
+  rw [pantr_wrote_iff]
+  cases (run co P dir d0 pr stop oot x0 y Sig errz0 gV).final <;>
+    cases (run co P dir d0 pr stop oot x0 y Sig errz0 gV).stats.status <;>
+    cases pr.alwaysOverwrite <;> simp
+
+/-- Any carrier, IEEE doubles included; the replay asserts `fuelOut = false` on every recorded run.
+
+    Feasibility: if the problem's prox step maps into `C` (proved for the shipped box / box+ℓ1 /
     unconstrained steps in `Props/C15`), the written-back `x` is in `C`. -/
-theorem pantr_x_out_feasible (InC : Vec α → Prop) (P : Problem α)
+theorem pantr_x_out_feasible_fuel (InC : Vec α → Prop) (P : Problem α)
     (hP : ∀ γ x g, InC (P.prox γ x g).2.1) (co : Consts α) (dir : Direction D α) (d0 : D)
     (pr : Params α) (stop : Nat → Bool) (oot : Bool) (x0 y Sig errz0 gV : Vec α)
     (hfuel : (run co P dir d0 pr stop oot x0 y Sig errz0 gV).fuelOut = false)
     (hw : (run co P dir d0 pr stop oot x0 y Sig errz0 gV).wrote = true) :
     InC (run co P dir d0 pr stop oot x0 y Sig errz0 gV).x := by
   obtain ⟨⟨γ, x, g, hx⟩, _, _⟩ :=
-    (pantr_exit_contract co P dir d0 pr stop oot x0 y Sig errz0 gV hfuel).1 hw
+    (pantr_exit_contract_fuel co P dir d0 pr stop oot x0 y Sig errz0 gV hfuel).1 hw
   rw [hx]; exact hP γ x g
 
-/-- Consistency: `y_out = ŷ(x_out)` and `err_z = (y_out − y_in)/Σ`, i.e. `y_out = y_in + Σ·err_z`
+/-- Any carrier, IEEE doubles included; the replay asserts `fuelOut = false` on every recorded run.
+
+    Consistency: `y_out = ŷ(x_out)` and `err_z = (y_out − y_in)/Σ`, i.e. `y_out = y_in + Σ·err_z`
     componentwise whenever `Σ_i ≠ 0` (stated in the division form the code computes). -/
-theorem pantr_y_errz_consistent (co : Consts α) (P : Problem α) (dir : Direction D α) (d0 : D)
+theorem pantr_y_errz_consistent_fuel (co : Consts α) (P : Problem α) (dir : Direction D α) (d0 : D)
     (pr : Params α) (stop : Nat → Bool) (oot : Bool) (x0 y Sig errz0 gV : Vec α)
     (hfuel : (run co P dir d0 pr stop oot x0 y Sig errz0 gV).fuelOut = false)
     (hw : (run co P dir d0 pr stop oot x0 y Sig errz0 gV).wrote = true) :
@@ -89,24 +138,28 @@ theorem pantr_y_errz_consistent (co : Consts α) (P : Problem α) (dir : Directi
         = (P.psi (run co P dir d0 pr stop oot x0 y Sig errz0 gV).x).2 ∧
     (errz0.length > 0 → (run co P dir d0 pr stop oot x0 y Sig errz0 gV).errz
         = vdiv (vsub (run co P dir d0 pr stop oot x0 y Sig errz0 gV).y y) Sig) := by
-  obtain ⟨_, hy, he⟩ := (pantr_exit_contract co P dir d0 pr stop oot x0 y Sig errz0 gV hfuel).1 hw
+  obtain ⟨_, hy, he⟩ := (pantr_exit_contract_fuel co P dir d0 pr stop oot x0 y Sig errz0 gV hfuel).1 hw
   exact ⟨hy, fun h => by rw [he, if_pos h]⟩
 
-/-- With `always_overwrite_results` disabled and an exit that is neither Converged nor
+/-- Any carrier, IEEE doubles included; the replay asserts `fuelOut = false` on every recorded run.
+
+    With `always_overwrite_results` disabled and an exit that is neither Converged nor
     Interrupted, `x`, `y` (and `err_z`) are left untouched. -/
-theorem pantr_untouched (co : Consts α) (P : Problem α) (dir : Direction D α) (d0 : D)
+theorem pantr_untouched_fuel (co : Consts α) (P : Problem α) (dir : Direction D α) (d0 : D)
     (pr : Params α) (stop : Nat → Bool) (oot : Bool) (x0 y Sig errz0 gV : Vec α)
     (hfuel : (run co P dir d0 pr stop oot x0 y Sig errz0 gV).fuelOut = false)
     (hw : (run co P dir d0 pr stop oot x0 y Sig errz0 gV).wrote = false) :
     (run co P dir d0 pr stop oot x0 y Sig errz0 gV).x = x0 ∧
     (run co P dir d0 pr stop oot x0 y Sig errz0 gV).y = y ∧
     (run co P dir d0 pr stop oot x0 y Sig errz0 gV).errz = errz0 :=
-  (pantr_exit_contract co P dir d0 pr stop oot x0 y Sig errz0 gV hfuel).2 hw
+  (pantr_exit_contract_fuel co P dir d0 pr stop oot x0 y Sig errz0 gV hfuel).2 hw
 
-/-- Every iterate ever handed to the progress callback — not only the returned one — carries a
+/-- Any carrier, IEEE doubles included; the replay asserts `fuelOut = false` on every recorded run.
+
+    Every iterate ever handed to the progress callback — not only the returned one — carries a
     consistent prox step and ŷ: `x̂`, `p`, `h(x̂)` are the prox oracle's answer at the iterate's own
     `(γ, x, ∇ψ(x))`, and `ψ(x̂)`, `ŷ` the ψ oracle's answer at that `x̂`. -/
-theorem pantr_reported_iterates_consistent (co : Consts α) (P : Problem α) (dir : Direction D α)
+theorem pantr_reported_iterates_consistent_fuel (co : Consts α) (P : Problem α) (dir : Direction D α)
     (d0 : D) (pr : Params α) (stop : Nat → Bool) (oot : Bool) (x0 y Sig errz0 gV : Vec α)
     (hfuel : (run co P dir d0 pr stop oot x0 y Sig errz0 gV).fuelOut = false) :
     ∀ cb ∈ (run co P dir d0 pr stop oot x0 y Sig errz0 gV).callbacks, Good P cb.it := by
@@ -120,6 +173,77 @@ theorem pantr_reported_iterates_consistent (co : Consts α) (P : Problem α) (di
     intro cb hmem
     exact mainLoop_callbacks_good co P dir pr stop oot x0 y Sig errz0 _ s hs.1
       (by rw [hc]; simp) hfuel cb hmem
+
+end structural
+
+/-! ### The same over an ordered field, with the fuel hypothesis discharged (`FuelOK`) -/
+section ordered
+variable {α D : Type} [Field α] [LinearOrder α] [IsStrictOrderedRing α] [RealLike α]
+
+/-- **Exit contract of `PANTRSolver::operator()`**, for every problem oracle, direction provider,
+    stop schedule, budget, status and both `always_overwrite_results` settings, under `FuelOK pr N`
+    (parameters under which no step-size loop of the model runs out of fuel).  Whenever the outputs
+    are overwritten: `x_out` is the `x̂` of a proximal-gradient step, `y_out` is the ψ-oracle's `ŷ` at
+    that very `x_out`, and `err_z = (y_out − y_in)/Σ`; otherwise `x`, `y`, `err_z` are untouched. -/
+theorem pantr_exit_contract (co : Consts α) (P : Problem α) (dir : Direction D α) (d0 : D)
+    (pr : Params α) (stop : Nat → Bool) (oot : Bool) (x0 y Sig errz0 gV : Vec α) (N : Nat)
+    (hF : FuelOK pr N) : ExitOK P x0 y Sig errz0 (run co P dir d0 pr stop oot x0 y Sig errz0 gV) :=
+  pantr_exit_contract_fuel co P dir d0 pr stop oot x0 y Sig errz0 gV
+    (pantr_fuel_suffices co P dir d0 pr stop oot x0 y Sig errz0 gV N hF)
+
+/-- Feasibility: if the problem's prox step maps into `C`, the written-back `x` is in `C`. -/
+theorem pantr_x_out_feasible (InC : Vec α → Prop) (P : Problem α)
+    (hP : ∀ γ x g, InC (P.prox γ x g).2.1) (co : Consts α) (dir : Direction D α) (d0 : D)
+    (pr : Params α) (stop : Nat → Bool) (oot : Bool) (x0 y Sig errz0 gV : Vec α) (N : Nat)
+    (hF : FuelOK pr N) (hw : (run co P dir d0 pr stop oot x0 y Sig errz0 gV).wrote = true) :
+    InC (run co P dir d0 pr stop oot x0 y Sig errz0 gV).x :=
+  pantr_x_out_feasible_fuel InC P hP co dir d0 pr stop oot x0 y Sig errz0 gV
+    (pantr_fuel_suffices co P dir d0 pr stop oot x0 y Sig errz0 gV N hF) hw
+
+/-- Consistency: `y_out = ŷ(x_out)` and `err_z = (y_out − y_in)/Σ`. -/
+theorem pantr_y_errz_consistent (co : Consts α) (P : Problem α) (dir : Direction D α) (d0 : D)
+    (pr : Params α) (stop : Nat → Bool) (oot : Bool) (x0 y Sig errz0 gV : Vec α) (N : Nat)
+    (hF : FuelOK pr N) (hw : (run co P dir d0 pr stop oot x0 y Sig errz0 gV).wrote = true) :
+    (run co P dir d0 pr stop oot x0 y Sig errz0 gV).y
+        = (P.psi (run co P dir d0 pr stop oot x0 y Sig errz0 gV).x).2 ∧
+    (errz0.length > 0 → (run co P dir d0 pr stop oot x0 y Sig errz0 gV).errz
+        = vdiv (vsub (run co P dir d0 pr stop oot x0 y Sig errz0 gV).y y) Sig) :=
+  pantr_y_errz_consistent_fuel co P dir d0 pr stop oot x0 y Sig errz0 gV
+    (pantr_fuel_suffices co P dir d0 pr stop oot x0 y Sig errz0 gV N hF) hw
+
+/-- With `always_overwrite_results` disabled and an exit that is neither Converged nor Interrupted
+    (`pantr_not_wrote_iff`), `x`, `y` (and `err_z`) are left untouched. -/
+theorem pantr_untouched (co : Consts α) (P : Problem α) (dir : Direction D α) (d0 : D)
+    (pr : Params α) (stop : Nat → Bool) (oot : Bool) (x0 y Sig errz0 gV : Vec α) (N : Nat)
+    (hF : FuelOK pr N) (hw : (run co P dir d0 pr stop oot x0 y Sig errz0 gV).wrote = false) :
+    (run co P dir d0 pr stop oot x0 y Sig errz0 gV).x = x0 ∧
+    (run co P dir d0 pr stop oot x0 y Sig errz0 gV).y = y ∧
+    (run co P dir d0 pr stop oot x0 y Sig errz0 gV).errz = errz0 :=
+  pantr_untouched_fuel co P dir d0 pr stop oot x0 y Sig errz0 gV
+    (pantr_fuel_suffices co P dir d0 pr stop oot x0 y Sig errz0 gV N hF) hw
+
+/-- The property's last sentence in one statement: `always_overwrite_results` off and a status that
+    is neither `Converged` nor `Interrupted` ⇒ `x`, `y`, `err_z` untouched. -/
+theorem pantr_untouched_of_status (co : Consts α) (P : Problem α) (dir : Direction D α) (d0 : D)
+    (pr : Params α) (stop : Nat → Bool) (oot : Bool) (x0 y Sig errz0 gV : Vec α) (N : Nat)
+    (hF : FuelOK pr N) (ho : pr.alwaysOverwrite = false)
+    (h1 : (run co P dir d0 pr stop oot x0 y Sig errz0 gV).stats.status ≠ .Converged)
+    (h2 : (run co P dir d0 pr stop oot x0 y Sig errz0 gV).stats.status ≠ .Interrupted) :
+    (run co P dir d0 pr stop oot x0 y Sig errz0 gV).x = x0 ∧
+    (run co P dir d0 pr stop oot x0 y Sig errz0 gV).y = y ∧
+    (run co P dir d0 pr stop oot x0 y Sig errz0 gV).errz = errz0 :=
+  pantr_untouched co P dir d0 pr stop oot x0 y Sig errz0 gV N hF
+    ((pantr_not_wrote_iff co P dir d0 pr stop oot x0 y Sig errz0 gV).mpr (.inr ⟨h1, h2, ho⟩))
+
+/-- Every iterate ever handed to the progress callback carries a consistent prox step and ŷ. -/
+theorem pantr_reported_iterates_consistent (co : Consts α) (P : Problem α) (dir : Direction D α)
+    (d0 : D) (pr : Params α) (stop : Nat → Bool) (oot : Bool) (x0 y Sig errz0 gV : Vec α) (N : Nat)
+    (hF : FuelOK pr N) :
+    ∀ cb ∈ (run co P dir d0 pr stop oot x0 y Sig errz0 gV).callbacks, Good P cb.it :=
+  pantr_reported_iterates_consistent_fuel co P dir d0 pr stop oot x0 y Sig errz0 gV
+    (pantr_fuel_suffices co P dir d0 pr stop oot x0 y Sig errz0 gV N hF)
+
+end ordered
 
 /-! ### Non-vacuity (closed instance `Proofs/PantrExample.lean`; the replay driver exercises the same
     hypotheses on every recorded run of the real solver) -/
@@ -137,10 +261,57 @@ example : (solve 0 false (-1) 0).wrote = false ∧ (solve 0 false (-1) 0).stats.
     (solve 0 false (-1) 0).x = [5] := by decide
 /-- … and with `always_overwrite_results`: overwritten -/
 example : (solve 0 true (-1) 0).wrote = true ∧ (solve 0 true (-1) 0).x = [1] := by decide
+/-- the `…_fuel` form on that run, the fuel flag evaluated -/
+example : ExitOK P [5] [] [] [] (solve 3 false (-1) 0) :=
+  pantr_exit_contract_fuel co P (dir (-1)) () (pr 3 false) _ false [5] [] [] [] [0] (by decide)
 /-- a provider returning a positive model value: the forward-backward step is taken instead -/
 example : (solve 3 false 1 0).wrote = true ∧ (solve 3 false 1 0).stats.directionFailures = 1 ∧
     (solve 3 false 1 0).stats.acceleratedStepRejected = 1 := by decide
 
 end examples
+
+/-! ### Non-vacuity of the `FuelOK` forms (`Proofs/PantrExampleQ.lean`: a run over `ℚ` with one
+    accepted and one rejected trust-region step) -/
+section examplesQ
+open Alpaqa.Pantr.ExampleQ
+
+/-- `FuelOK` holds for the example's parameters (`L_max = 100 ≤ L_0·2⁸`, `8 < 16`) … -/
+example : FuelOK prq 8 := fuelOK
+/-- … so the exit contract applies to the run, for every stop schedule; here: `MaxIter` after two
+    iterations without `always_overwrite_results` — untouched; interrupted at tick 6 — overwritten
+    with the `x̂ = 1/2 ∈ C` of the current iterate `x = 1`. -/
+example (t0 : Option Nat) : ExitOK Pq [4] [5] [2] [7] (rq t0) :=
+  pantr_exit_contract coq Pq dirq 0 prq (stopAt t0) false [4] [5] [2] [7] [0] 8 fuelOK
+example : (rq none).wrote = false ∧ (rq none).stats.status = .MaxIter ∧ (rq none).stats.iterations = 2 ∧
+    (rq none).x = [4] ∧ (rq (some 6)).wrote = true ∧ (rq (some 6)).stats.status = .Interrupted ∧
+    (rq (some 6)).x = [1/2] ∧ (rq (some 6)).stats.iterations = 1 := by decide +kernel
+example : (rq none).x = [4] ∧ (rq none).y = [5] ∧ (rq none).errz = [7] :=
+  pantr_untouched_of_status coq Pq dirq 0 prq (stopAt none) false [4] [5] [2] [7] [0] 8 fuelOK rfl
+    (by decide +kernel) (by decide +kernel)
+example : domq (rq (some 6)).x :=
+  pantr_x_out_feasible domq Pq (fun γ x g => ⟨_, rfl, (clampQ_mem _).1, (clampQ_mem _).2⟩) coq dirq 0 prq
+    (stopAt (some 6)) false [4] [5] [2] [7] [0] 8 fuelOK (by decide +kernel)
+/-- interrupted at tick 6: `y_out = ŷ(x_out) = [1/2]`, `err_z = (y_out − y_in)/Σ = [(1/2 − 5)/2]` -/
+example : (rq (some 6)).y = (Pq.psi (rq (some 6)).x).2 ∧
+    (([7] : Vec ℚ).length > 0 → (rq (some 6)).errz = vdiv (vsub (rq (some 6)).y [5]) [2]) :=
+  pantr_y_errz_consistent coq Pq dirq 0 prq (stopAt (some 6)) false [4] [5] [2] [7] [0] 8 fuelOK
+    (by decide +kernel)
+example : (rq (some 6)).y = [1/2] ∧ (rq (some 6)).errz = [-9/4] := by decide +kernel
+example : (rq (some 6)).wrote = true ↔ ((rq (some 6)).final ≠ none ∧
+    ((rq (some 6)).stats.status = .Converged ∨ (rq (some 6)).stats.status = .Interrupted ∨
+      prq.alwaysOverwrite = true)) :=
+  pantr_wrote_true_iff coq Pq dirq 0 prq (stopAt (some 6)) false [4] [5] [2] [7] [0]
+example : ∀ cb ∈ (rq none).callbacks, Good Pq cb.it :=
+  pantr_reported_iterates_consistent coq Pq dirq 0 prq (stopAt none) false [4] [5] [2] [7] [0] 8 fuelOK
+example : (rq none).callbacks.length = 3 := by decide +kernel
+
+/-- **The fuel the replay driver passes** (`Driver/LoopPantr.lean`: default `qubFuel = 4096`) covers
+    the worst parameters `checks/loop_pantr.py` draws — `L_0 ≤ 0` (finite-difference estimate),
+    `L_min = 1e-5` (default), `L_max = 1e20`: `1e20 ≤ 1e-5·2⁸⁴` (`2⁸⁴ ≈ 1.93e25`) and `84 < 4096`. -/
+example (pr : Params ℚ) (h0 : pr.L0 = 0) (h1 : pr.Lmin = 1/100000) (h2 : pr.Lmax = 100000000000000000000)
+    (h3 : pr.qubFuel = 4096) : FuelOK pr 84 :=
+  ⟨by rw [h1]; norm_num, by rw [h2]; norm_num, by rw [h0, h1, h2]; norm_num, by rw [h3]; norm_num⟩
+
+end examplesQ
 
 end Alpaqa.Props.C03_Pantr
